@@ -313,11 +313,18 @@ theorem ev_selLoop_stop {ts : List Token} {e : Expr} (h1 : cur ts ≠ .dot) (h2 
   refine Ev.step (q := fun _ => .ok (e, ts)) (fun f => ?_) (Ev.const _)
   simp only [selLoop]
 
-theorem ev_idx_plain {ts ts' : List Token} {i : Expr} (hk : posKw? ts = none)
+/-- the `default:` branch: the first token is not a position word, or it is not followed by `(` -/
+theorem ev_idx_plain {ts ts' : List Token} {i : Expr} (hk : posKw? ts = none ∨ cur ts.tail ≠ .lparen)
     (h : Ev (fun f => parseExpr f ts) (.ok (i, ts'))) :
     Ev (fun f => parseIndexSpecifier f ts) (.ok (.plain i, ts')) := by
   refine Ev.step (q := fun f => (parseExpr f ts).bind fun p => .ok (.plain p.1, p.2))
-    (fun f => by simp only [parseIndexSpecifier, hk]) ?_
+    (fun f => ?_) ?_
+  · simp only [parseIndexSpecifier]
+    split
+    · rcases hk with hk | hk
+      · simp_all
+      · rw [if_neg hk]
+    · rfl
   ev_bind h
   exact Ev.const _
 
